@@ -9,6 +9,7 @@ import itertools
 import json
 
 from common import *
+import c15_factory
 
 USIZE_MAX = 2**64 - 1
 NS = 10**9
@@ -226,7 +227,7 @@ def bucket_part(chk, build, factor):
 def run(chk):
     ok_proofs = chk.proofs()
     factor = 1 if ok_proofs else 10
-    bins = ["eng_bucket"]
+    bins = ["eng_bucket", "eng_capacity"]
     build = cargo_build(bins)
     if not build["ok"]:
         ok, log = repo_builds_without_hooks()
@@ -237,6 +238,7 @@ def run(chk):
                       + build["log"][-3000:], failing_input=False)
         return chk.finish(trusted_base=TRUSTED)
     distinct = bucket_part(chk, build, factor)
+    distinct |= c15_factory.factory_part(chk, build, factor)
     chk.coverage["distinct_nontrivial"] = len(distinct)
     chk.coverage["rule"] = (
         "bucket: all (refill, interval, max in {0,1,2}; initial in {None,0,1,3}) x all op sequences of length 3 "
